@@ -288,6 +288,9 @@ func NewRunner(spec *RunSpec, c *model.Corpus) *Runner {
 	for _, st := range spec.Hist {
 		if st.Ev == "" || st.Ev == "shared" {
 			op := r.op(st.Op)
+			if op.Kind == "legacy" && st.Arg > 0 {
+				r.op(uint64(st.Arg - 1))
+			}
 			for _, e := range []string{"size", "enc", "dec"} {
 				k := op.Type + "/" + e
 				if _, ok := r.c13idx[k]; !ok {
@@ -341,7 +344,7 @@ func (r *Runner) Run() {
 	if spec.Prof == "C06" {
 		debug.SetGCPercent(-1) // collections happen only when the simulator schedules one
 	}
-	debug.SetMaxStack(256 << 20)
+	debug.SetMaxStack(64 << 20)
 	verifsim.SetPool(spec.Pool, model.Mix(spec.Seed, 0x9001))
 	if spec.Prof == "C16" {
 		r.prepareShared()
@@ -477,8 +480,12 @@ func (r *Runner) step(st *Step) {
 		verifsim.ReseedPool(model.Mix(r.Spec.Seed, 0x9001, uint64(st.Slot)))
 	}
 	r.J.put(&Rec{K: "B", Slot: st.Slot, Task: st.Task, Op: st.Op, Step: verifsim.GlobalStep()})
+	t0 := verifsim.TaskSteps()
 	res := r.exec(op, st)
 	res.K, res.Slot, res.Task, res.Op = "E", st.Slot, st.Task, st.Op
+	if res.Steps == 0 {
+		res.Steps = verifsim.TaskSteps() - t0
+	}
 	r.J.put(res)
 }
 
@@ -796,9 +803,9 @@ func (r *Runner) decodeOnce(op *OpSpec, st *Step, sd *model.StructDef, m *messag
 		}
 		r.J.put(&Rec{K: "b", Slot: st.Slot, Op: st.Op, Msg: m.desc, N: len(in)}) // so that a dying child names the input in flight
 	}
-	a0, s0 := heapAllocs(), verifsim.Steps()
+	a0, s0 := heapAllocs(), verifsim.TaskSteps()
 	n, err, pc, pt := callDec(in, dst.Interface())
-	steps, alloc := verifsim.Steps()-s0, heapAllocs()-a0
+	steps, alloc := verifsim.TaskSteps()-s0, heapAllocs()-a0
 	res.N, res.Steps, res.Alloc = n, steps, alloc
 	switch {
 	case pc != "":
@@ -856,6 +863,11 @@ func (r *Runner) execLegacy(op *OpSpec, st *Step) *Rec {
 			}
 		}()
 		rt := corpus.Types[op.Type]
+		if st.Arg > 0 {
+			if t, ok := corpus.Types[r.op(uint64(st.Arg-1)).Type]; ok {
+				rt = t // targeted: the type of another operation of this history
+			}
+		}
 		switch op.Legacy {
 		case "pretouch":
 			if err := frugal.Pretouch(rt); err != nil {
@@ -939,6 +951,8 @@ func (r *Runner) execArg(op *OpSpec, st *Step) *Rec {
 	case "struct-of-nonstruct-ptr":
 		x := notAStruct(3)
 		arg = &x
+	case "struct-value":
+		arg = reflect.New(rt).Elem().Interface()
 	}
 	res := &Rec{Tag: "arg/" + op.Arg + "/" + op.Legacy}
 	a := newArena(64, 96)
